@@ -1,5 +1,8 @@
 // native replay oracle for C15: IdSetDense against std::set, ItemStash against a map model (with garbage collections)
 #define NDEBUG 1
+#include <osmium/index/relations_map.hpp>
+#include <algorithm>
+#include <vector>
 #include <osmium/index/id_set.hpp>
 #include <osmium/storage/item_stash.hpp>
 #include <osmium/builder/osm_object_builder.hpp>
@@ -63,14 +66,30 @@ static int check_stash(unsigned seed, int rounds) {
     return 0;
 }
 
+// relation maps against a multimap model, including ids at and beyond the 32-bit boundary in the small (32-bit) index
+static int check_relmap() {
+    const std::vector<std::pair<uint64_t, uint64_t>> pairs = {{5, 100}, {5, 101}, {7, 200}, {4294967295ULL, 7}, {4294967295ULL, 9}, {0, 3}, {4294967294ULL, 11}};
+    osmium::index::RelationsMapStash stash; for (const auto& p : pairs) stash.add(p.first, p.second);
+    const auto index = stash.build_member_to_parent_index();
+    for (uint64_t key : {0ULL, 5ULL, 6ULL, 7ULL, 4294967294ULL, 4294967295ULL, 4294967296ULL, 4294967296ULL + 5, (1ULL << 33) + 7, 18446744073709551615ULL}) {
+        std::vector<uint64_t> want; for (const auto& p : pairs) if (p.first == key) want.push_back(p.second);
+        std::vector<uint64_t> got; index.for_each(key, [&](osmium::unsigned_object_id_type id) { got.push_back(id); });
+        std::sort(want.begin(), want.end()); std::sort(got.begin(), got.end());
+        if (got != want) { std::printf("relations map (member to parent, 32-bit index): lookup of id %llu returns %zu entries, %zu were recorded for it\nARGV: relmap\n", (unsigned long long)key, got.size(), want.size()); return 1; }
+    }
+    return 0;
+}
+
 int main(int argc, char** argv) {
     unsigned seed = 1; std::string only;
     if (argc >= 2 && std::string(argv[1]) == "--search") { seed = argc > 2 ? unsigned(std::atoll(argv[2])) : 0; only = argc > 3 ? argv[3] : ""; }
     else if (argc >= 2 && std::string(argv[1]) == "stash") only = "ItemStash";
+    else if (argc >= 2 && std::string(argv[1]) == "relmap") return check_relmap();
     else if (argc >= 2 && std::string(argv[1]) == "last") only = "last";
     else if (argc >= 2 && std::string(argv[1]) == "search") only = "IdSetDense";
     std::mt19937_64 rng(seed);
     bool all = only.empty();
+    if (all || only.find("flat_map") != std::string::npos) if (check_relmap()) return 1;
     if (all || only.find("ItemStash") != std::string::npos || only.find("cleanup_helper") != std::string::npos) { if (check_stash(seed, 3)) { std::printf("ARGV: stash\n"); return 1; } }
     if (all || only.find("last") != std::string::npos || only.find("IdSetDense") != std::string::npos) if (check_last32()) { std::printf("ARGV: last uint32_t\n"); return 1; }
     if (all || only.find("IdSetDense") != std::string::npos || only.find("id_to_bit") != std::string::npos) {
